@@ -80,10 +80,10 @@ func (e *Exec) buildInput(v Val, t types.Type, depth int) *inNode {
 			an, srt := e.seqArr(u.Elem())
 			seq := sx("select", an, v.t())
 			_ = srt
-			n.lenT = sx("seq.len", seq)
+			n.lenT = sx("select", "LEN", v.t())
 			n.elemT = u.Elem()
 			for i := 0; i < replayElems; i++ {
-				ev := e.elemPure(sx("seq.nth", seq, sInt(int64(i))), u.Elem())
+				ev := e.elemPure(sx("select", seq, sInt(int64(i))), u.Elem())
 				n.elems = append(n.elems, e.buildInput(ev, u.Elem(), depth+1))
 			}
 		}
